@@ -1,13 +1,13 @@
 package main
 
 import (
-	"runtime/debug"
-	"runtime/pprof"
 	"encoding/json"
 	"flag"
 	"fmt"
 	"os"
 	"runtime"
+	"runtime/debug"
+	"runtime/pprof"
 	"strconv"
 	"strings"
 	"time"
